@@ -3,4 +3,5 @@ VIEW LView
 CONSTRAINT Bound
 INVARIANT ObsLaw
 PROPERTY SharedFrozen
+PROPERTY WdFrozen
 PROPERTY CalcsStable
